@@ -386,6 +386,7 @@ def _case_value(prog, ent, case_name, case):
     calls = [c for c in ev.calls if c["name"] == ent["watch"]]
     if ent.get("unconditional") and any(c.get("cond") for c in calls):
         # the watched call sits under a condition the evaluator cannot decide: in this case it must happen on every path
+        _case_value.conditional = True
         return None
     if ent.get("collect") == "keyed":
         out = {}
@@ -431,10 +432,14 @@ def check_sites(prog, chk, pid):
         want = {}
         partial = {}
         deps_by_case = {}
+        conditional = []
         for cname, case in ent["cases"].items():
             _case_value.incomplete = []
             _case_value.unk_deps = {}
+            _case_value.conditional = False
             got[cname] = _case_value(prog, ent, cname, case)
+            if _case_value.conditional:
+                conditional.append(cname)
             deps_by_case[cname] = _case_value.unk_deps
             if _case_value.incomplete or not _definite(got[cname]):
                 partial[cname] = _case_value.incomplete[:1] or ["part of the value is unknown to the evaluator"]
@@ -448,6 +453,10 @@ def check_sites(prog, chk, pid):
         if ren is not None:
             for cname in ent["cases"]:
                 chk.ok("A17.site-algebra", f"{name}:{cname}", b.where(), f"{short} [{cname}]: {ent.get('watch', 'result')} <- {A.canon(got[cname])} equals the reference" + (f" with {ren}" if ren else ""))
+        elif conditional:
+            # the case fixes the element's name and which attributes it has - everything the reference value depends on -
+            # and there the watched call is to happen whatever else holds
+            chk.bad("A17.site-algebra", f"{name}", b.where(), f"{short} [{conditional[0]}]: whether {ent.get('watch')}() is called depends on something the case does not determine (state other than the element's name and the attributes listed), in {len(conditional)} of {len(ent['cases'])} cases; by the reference ({ent.get('why', '')}) it happens on every path")
         elif "ret" in ent and not all(_same_shape(got[c], A.ref(want[c])) for c in ent["cases"] if _reads(want[c])):
             chk.undecided("A17.site-algebra", name, b.where(), f"{short}: the result is carried in a differently shaped value than the reference describes (other field names, a struct for a tuple ...): e.g. {A.canon(got[sorted(ent['cases'])[0]])[:200]}; it cannot be compared part by part")
         elif partial and len(partial) < len(ent["cases"]) and match_modulo({c: got[c] for c in got if c not in partial}, {c: want[c] for c in want if c not in partial}, ent.get("roles", []), fixed_prefixes=tuple(ent.get("fixed", ["box.", "$"])))[0] is None and not match_modulo.untraced:
